@@ -1,2 +1,203 @@
-(* C05 - proofs about the text-level model (placeholder, filled below). *)
+(* C05 - proofs about the text-level model: reading what write() wrote gives the
+   data back (bp_roundtrip), for all tables, under the int/float token codecs'
+   round-trip hypotheses. *)
 From HV Require Import Prelude Tracts BpText C05_Model C05_Check.
+
+Section RoundTrip.
+Variable parse_int parse_flt : str -> res Z.
+Variable fmt_int fmt_flt : Z -> str.
+
+Notation iter_step := (iter_step parse_int parse_flt).
+Notation iter_run := (iter_run parse_int parse_flt).
+Notation yield_cur := (yield_cur parse_int parse_flt).
+Notation conv_blk := (conv_blk parse_int parse_flt).
+Notation bp_iter := (bp_iter parse_int parse_flt).
+Notation bp_read := (bp_read parse_int parse_flt).
+Notation fmt_blk := (fmt_blk fmt_int fmt_flt).
+Notation bp_write := (bp_write fmt_int fmt_flt).
+
+(* a block the format can carry: the label does not start a comment, label and
+   chromosome fit the array fields, and the two numeric tokens parse back *)
+Definition wf_blk (b : cblk) : Prop :=
+  first_char_is c_hash (c_pop b) = false /\
+  (length (c_pop b) <= 6)%nat /\ (length (c_chrom b) <= 10)%nat /\
+  parse_int (fmt_int (c_bp b)) = Ok (c_bp b) /\ parse_flt (fmt_flt (c_cm b)) = Ok (c_cm b).
+
+Definition wf_sample (sb : str * (list cblk * list cblk)) : Prop :=
+  first_char_is c_hash (fst sb) = false /\ Forall wf_blk (fst (snd sb)) /\ Forall wf_blk (snd (snd sb)).
+
+Definition raw_of (b : cblk) : rblk := (c_pop b, c_chrom b, fmt_int (c_bp b), fmt_flt (c_cm b)).
+
+Lemma conv_raw b : wf_blk b -> conv_blk (raw_of b) = Ok b.
+Proof.
+  intros [_ [H6 [H10 [Hi Hf]]]]. unfold C05_Model.conv_blk, raw_of. rewrite Hi. cbn [bind]. rewrite Hf. cbn [bind].
+  rewrite !firstn_all2 by assumption. destruct b. reflexivity.
+Qed.
+
+Lemma conv_raws bs : Forall wf_blk bs -> mapM conv_blk (map raw_of bs) = Ok bs.
+Proof.
+  induction 1 as [|b bs Hb _ IH]; cbn [map mapM]; [reflexivity|].
+  rewrite (conv_raw b Hb). cbn [bind]. rewrite IH. reflexivity.
+Qed.
+
+Lemma iter_run_app ls1 ls2 st :
+  iter_run None (ls1 ++ ls2) st = bind (iter_run None ls1 st) (iter_run None ls2).
+Proof.
+  revert st. induction ls1 as [|l r IH]; intros st; cbn [app C05_Model.iter_run]; [reflexivity|].
+  destruct (iter_step None st l) as [st1|k]; cbn [bind]; [apply IH|reflexivity].
+Qed.
+
+(* block lines are appended to the current strand *)
+Lemma run_blocks (second : bool) bs : forall n r0 r1 out,
+  Forall wf_blk bs ->
+  iter_run None (map fmt_blk bs) (mkist (Some (n, r0, r1)) (SInt second) out) =
+  Ok (if second then mkist (Some (n, r0, r1 ++ map raw_of bs)) (SInt true) out
+      else mkist (Some (n, r0 ++ map raw_of bs, r1)) (SInt false) out).
+Proof.
+  induction bs as [|b bs IH]; intros n r0 r1 out Hwf; cbn [map C05_Model.iter_run].
+  - rewrite !app_nil_r. destruct second; reflexivity.
+  - inversion Hwf as [|? ? Hb Hbs]; subst. destruct Hb as [Hh _].
+    unfold C05_Model.iter_step, C05_Model.fmt_blk. rewrite Hh. cbn [i_strand i_cur i_out].
+    destruct second; cbn [bind].
+    + rewrite IH by exact Hbs. rewrite <- app_assoc. reflexivity.
+    + rewrite IH by exact Hbs. rewrite <- app_assoc. reflexivity.
+Qed.
+
+Lemma hash_hdr n sfx : first_char_is c_hash n = false -> first_char_is c_hash sfx = false ->
+  first_char_is c_hash (n ++ sfx) = false.
+Proof. intros Hn Hs. destruct n as [|x n]; [exact Hs|exact Hn]. Qed.
+
+Lemma step_hdr1 n st :
+  first_char_is c_hash n = false ->
+  iter_step None st [n ++ sfx_1] =
+  bind (yield_cur None st) (fun out => Ok (mkist (Some (n, [], [])) (SInt false) out)).
+Proof.
+  intros Hn. unfold C05_Model.iter_step. rewrite (hash_hdr n sfx_1 Hn eq_refl).
+  unfold sfx_1. rewrite after_last_sfx by (unfold c_1, c_us; lia).
+  rewrite drop_last_sfx. reflexivity.
+Qed.
+
+Lemma step_hdr2 n st :
+  first_char_is c_hash n = false ->
+  iter_step None st [n ++ sfx_2] = Ok (mkist (i_cur st) (SInt true) (i_out st)).
+Proof.
+  intros Hn. unfold C05_Model.iter_step. rewrite (hash_hdr n sfx_2 Hn eq_refl).
+  unfold sfx_2. rewrite after_last_sfx by (unfold c_2, c_us; lia). reflexivity.
+Qed.
+
+Definition pending : Type := option (str * list cblk * list cblk).
+
+Definition raw_pending (p : pending) : option (str * list rblk * list rblk) :=
+  match p with
+  | Some (n, b0, b1) => Some (n, map raw_of b0, map raw_of b1)
+  | None => None
+  end.
+
+Definition flush (p : pending) : ctable :=
+  match p with Some (n, b0, b1) => [(n, (b0, b1))] | None => [] end.
+
+Definition wf_pending (p : pending) : Prop :=
+  match p with Some (n, b0, b1) => Forall wf_blk b0 /\ Forall wf_blk b1 | None => True end.
+
+Lemma yield_pending p strand out :
+  wf_pending p -> yield_cur None (mkist (raw_pending p) strand out) = Ok (out ++ flush p).
+Proof.
+  destruct p as [[[n b0] b1]|]; cbn [raw_pending flush wf_pending]; intros H.
+  - destruct H as [H0 H1]. unfold C05_Model.yield_cur. cbn [i_cur i_out selected].
+    rewrite (conv_raws b0 H0). cbn [bind]. rewrite (conv_raws b1 H1). reflexivity.
+  - unfold C05_Model.yield_cur. cbn [i_cur i_out]. rewrite app_nil_r. reflexivity.
+Qed.
+
+Lemma iter_write d : forall p strand out,
+  Forall wf_sample d -> wf_pending p ->
+  bind (iter_run None (bp_write d) (mkist (raw_pending p) strand out)) (yield_cur None)
+  = Ok (out ++ flush p ++ d).
+Proof.
+  induction d as [|[n [b0 b1]] d IH]; intros p strand out Hd Hp.
+  - cbn [C05_Model.bp_write flat_map C05_Model.iter_run bind]. rewrite app_nil_r. apply yield_pending. exact Hp.
+  - inversion Hd as [|? ? Hs Hd']; subst. destruct Hs as [Hn [H0 H1]]. cbn [fst snd] in Hn, H0, H1.
+    unfold C05_Model.bp_write. cbn [flat_map fst snd]. fold (bp_write d).
+    cbn [app C05_Model.iter_run]. rewrite (step_hdr1 n _ Hn). rewrite (yield_pending p strand out Hp). cbn [bind].
+    rewrite <- app_assoc. rewrite iter_run_app. rewrite (run_blocks false b0) by exact H0. cbn [bind app].
+    cbn [C05_Model.iter_run]. rewrite (step_hdr2 n _ Hn). cbn [bind i_cur i_out].
+    rewrite iter_run_app. rewrite (run_blocks true b1) by exact H1. cbn [bind app].
+    change (Some (n, map raw_of b0, map raw_of b1)) with (raw_pending (Some (n, b0, b1))).
+    rewrite (IH (Some (n, b0, b1)) (SInt true) (out ++ flush p)); [|exact Hd'|split; assumption].
+    cbn [flush]. rewrite <- !app_assoc. reflexivity.
+Qed.
+
+Lemma bp_iter_write d : Forall wf_sample d -> bp_iter None (bp_write d) = Ok d.
+Proof.
+  intros Hd. unfold C05_Model.bp_iter. apply (iter_write d None SUnbound [] Hd I).
+Qed.
+
+(* dict(...) of pairs with distinct keys keeps them all, in order *)
+Lemma dict_set_fresh_str {V} k (v : V) d :
+  ~ In k (map fst d) -> dict_set str_eqb k v d = d ++ [(k, v)].
+Proof.
+  induction d as [|[k' v'] r IH]; cbn [dict_set map fst app]; intros H; [reflexivity|].
+  destruct (str_eqb k k') eqn:E; [apply str_eqb_spec in E; subst; exfalso; apply H; left; reflexivity|].
+  f_equal. apply IH. intros Hin. apply H. right. exact Hin.
+Qed.
+
+Lemma dict_of_list_nodup {V} (l : list (str * V)) : NoDup (map fst l) -> dict_of_list str_eqb l = l.
+Proof.
+  unfold dict_of_list.
+  assert (H : forall acc, NoDup (map fst (acc ++ l)) ->
+            fold_left (fun d kv => dict_set str_eqb (fst kv) (snd kv) d) l acc = acc ++ l).
+  { induction l as [|[k v] r IH]; intros acc Hn; cbn [fold_left]; [rewrite app_nil_r; reflexivity|].
+    cbn [fst snd]. rewrite dict_set_fresh_str.
+    - rewrite IH; rewrite <- app_assoc; [reflexivity|exact Hn].
+    - rewrite map_app in Hn. cbn [map fst] in Hn. apply NoDup_remove_2 in Hn.
+      intros Hin. apply Hn. apply in_or_app. left. exact Hin. }
+  intros Hn. apply (H [] Hn).
+Qed.
+
+(* Writing breakpoints and reading them back yields identical samples, order, labels,
+   chromosomes, positions and centimorgan values. *)
+Theorem bp_roundtrip d :
+  Forall wf_sample d -> NoDup (map fst d) -> bp_read None (bp_write d) = Ok d.
+Proof.
+  intros Hd Hn. unfold C05_Model.bp_read. rewrite (bp_iter_write d Hd). cbn [bind].
+  rewrite (dict_of_list_nodup d Hn). reflexivity.
+Qed.
+End RoundTrip.
+
+(* the hypotheses are satisfiable: a toy codec (a number is written as the one-character
+   token holding it) and a two-sample table with underscores in a name *)
+Definition toy_parse (s : str) : res Z := match s with [z] => Ok z | _ => Err E_Value end.
+Definition toy_fmt (z : Z) : str := [z].
+
+Example bp_roundtrip_example :
+  let d : ctable := [([97; 95; 98], ([mkcb [89] [49] 10 7; mkcb [67] [49] 20 8], [mkcb [67] [49] 20 8]));
+                     ([], ([], [mkcb [] [] 0 0]))] in
+  Forall (wf_sample toy_parse toy_parse toy_fmt toy_fmt) d /\ NoDup (map fst d) /\
+  bp_read toy_parse toy_parse None (bp_write toy_fmt toy_fmt d) = Ok d.
+Proof.
+  cbv zeta. split; [|split].
+  - repeat constructor; cbn; lia.
+  - repeat constructor; cbn; intuition discriminate.
+  - vm_compute. reflexivity.
+Qed.
+
+(* soundness of the write checker: when holds_write is true on a table of the writer's
+   domain, the re-read data is the table *)
+Lemma ctable_eqb_true a b : ctable_eqb a b = true -> a = b.
+Proof.
+  unfold ctable_eqb. apply list_eqb_spec. intros [n1 [x1 y1]] [n2 [x2 y2]]. unfold pair_eqb. cbn [fst snd].
+  assert (Hb : forall p q, list_eqb cblk_eqb p q = true <-> p = q).
+  { apply list_eqb_spec. intros p q. unfold cblk_eqb. destruct p, q. cbn.
+    rewrite !andb_true_iff, !Z.eqb_eq. split.
+    - intros [[[H1 H2] H3] H4]. apply str_eqb_spec in H1. apply str_eqb_spec in H2. subst. reflexivity.
+    - intros H; inversion H; subst. rewrite !str_eqb_refl. auto. }
+  rewrite !andb_true_iff. split.
+  - intros [H1 [H2 H3]]. apply str_eqb_spec in H1. apply Hb in H2. apply Hb in H3. subst. reflexivity.
+  - intros H; inversion H; subst. rewrite str_eqb_refl. split; [reflexivity|]. split; apply Hb; reflexivity.
+Qed.
+
+Theorem holds_write_sound k :
+  holds_write k = true -> write_domain (w_tbl k) = true -> w_reread k = Ok (w_tbl k).
+Proof.
+  unfold holds_write. intros H D. rewrite D in H. destruct (w_reread k) as [t|e]; cbn in H; [|discriminate].
+  apply ctable_eqb_true in H. subst. reflexivity.
+Qed.
